@@ -562,6 +562,153 @@ int main(int argc, char** argv)
          if(child == 0)
             _exit(0);
       }
+      else if(t[0] == "HIST")
+      {
+         // HIST tag sync=auto|manual k=v ... | step | step | ...      -- a history of exact solves on ONE SoPlex object
+         //   step: parameter settings k=v, rational edits obj:j:v lhs:i:v rhs:i:v lo:j:v up:j:v, sense:max|min, mode:real
+         //         (a floating-point solve instead of an exact one), then optimize()
+         // after every step: SOLVE tag.k (everything the user can read), LPQ tag.k.out (the rational LP held), TYPES tag.k
+         // (the private range-type arrays).  The whole history runs in one child process.
+         fflush(stdout);
+         pid_t child = fork();
+
+         if(child > 0)
+         {
+            int wst = 0;
+            waitpid(child, &wst, 0);
+
+            if(WIFSIGNALED(wst))
+               printf("HISTCRASH %s signal=%d\n", t[1].c_str(), WTERMSIG(wst));
+            else if(WIFEXITED(wst) && WEXITSTATUS(wst) != 0)
+               printf("HISTCRASH %s exit=%d\n", t[1].c_str(), WEXITSTATUS(wst));
+
+            fflush(stdout);
+            continue;
+         }
+
+         alarm(120);
+         int step = -1;
+
+         try
+         {
+            // split into segments at "|"
+            std::vector<std::vector<std::string>> seg(1);
+
+            for(size_t k = 2; k < t.size(); k++)
+            {
+               if(t[k] == "|")
+                  seg.push_back(std::vector<std::string>());
+               else
+                  seg.back().push_back(t[k]);
+            }
+
+            std::string sync = "auto";
+            SP s;
+            quiet(s);
+            bool ok = true;
+
+            for(auto& w : seg[0])
+               if(w.compare(0, 5, "sync=") == 0)
+                  sync = w.substr(5);
+
+            s.setIntParam(SP::SYNCMODE, sync == "manual" ? SP::SYNCMODE_MANUAL : SP::SYNCMODE_AUTO);
+            s.setIntParam(SP::SOLVEMODE, SP::SOLVEMODE_RATIONAL);
+            s.setIntParam(SP::CHECKMODE, SP::CHECKMODE_RATIONAL);
+            s.setRealParam(SP::FEASTOL, 0.0);
+            s.setRealParam(SP::OPTTOL, 0.0);
+
+            for(auto& w : seg[0])
+               if(w.compare(0, 5, "sync=") != 0)
+                  ok = setParam(s, w) && ok;
+
+            loadRational(s, L);
+
+            if(sync == "manual")
+               s.syncLPReal();
+
+            for(size_t g = 1; g < seg.size(); g++)
+            {
+               step = (int)g - 1;
+               bool realmode = false;
+               bool edited = false;
+               std::string stag = t[1] + "." + std::to_string(step);
+
+               for(auto& w : seg[g])
+               {
+                  if(w.find('=') != std::string::npos)
+                  {
+                     ok = setParam(s, w) && ok;
+                     continue;
+                  }
+
+                  size_t c1 = w.find(':');
+                  size_t c2 = w.find(':', c1 + 1);
+                  std::string kind = w.substr(0, c1);
+
+                  if(kind == "sense")
+                     s.setIntParam(SP::OBJSENSE, w.substr(c1 + 1) == "max" ? SP::OBJSENSE_MAXIMIZE : SP::OBJSENSE_MINIMIZE);
+                  else if(kind == "mode")
+                     realmode = (w.substr(c1 + 1) == "real");
+                  else
+                  {
+                     int idx = atoi(w.substr(c1 + 1, c2 - c1 - 1).c_str());
+                     Rational v = ratOf(w.substr(c2 + 1));
+                     edited = true;
+
+                     if(kind == "obj") s.changeObjRational(idx, v);
+                     else if(kind == "lhs") s.changeLhsRational(idx, v);
+                     else if(kind == "rhs") s.changeRhsRational(idx, v);
+                     else if(kind == "lo") s.changeLowerRational(idx, v);
+                     else if(kind == "up") s.changeUpperRational(idx, v);
+                     else ok = false;
+                  }
+               }
+
+               if(edited && sync == "manual")
+                  s.syncLPReal();
+
+               if(realmode)
+               {
+                  s.setIntParam(SP::SOLVEMODE, SP::SOLVEMODE_REAL);
+                  s.setRealParam(SP::FEASTOL, 1e-6);
+                  s.setRealParam(SP::OPTTOL, 1e-6);
+                  s.optimize();
+                  printf("REALSTEP %s status=%s scaled=%d\n", stag.c_str(), statusName(s.status()), s._isRealLPScaled ? 1 : 0);
+                  s.setIntParam(SP::SOLVEMODE, SP::SOLVEMODE_RATIONAL);
+                  s.setRealParam(SP::FEASTOL, 0.0);
+                  s.setRealParam(SP::OPTTOL, 0.0);
+               }
+               else
+               {
+                  s.optimize();
+                  reportSolve(s, stag + (ok ? "" : "!badparam"));
+               }
+
+               printf("LPQ %s.out %s\n", stag.c_str(), dumpLPRational(s).c_str());
+               std::string ct, rt;
+
+               for(int j = 0; j < s._colTypes.size(); j++) ct.push_back((char)('0' + (int)s._colTypes[j]));
+
+               for(int i = 0; i < s._rowTypes.size(); i++) rt.push_back((char)('0' + (int)s._rowTypes[i]));
+
+               printf("TYPES %s ctypes=%s, rtypes=%s,\n", stag.c_str(), ct.c_str(), rt.c_str());
+               fflush(stdout);
+            }
+         }
+         catch(const SPxException& e)
+         {
+            printf("SOLVE %s.%d status=EXCEPTION what=%s\n", t[1].c_str(), step, vf::hex(e.what()).c_str());
+         }
+         catch(const std::exception& e)
+         {
+            printf("SOLVE %s.%d status=EXCEPTION what=%s\n", t[1].c_str(), step, vf::hex(e.what()).c_str());
+         }
+
+         fflush(stdout);
+
+         if(child == 0)
+            _exit(0);
+      }
    }
 
    return 0;
